@@ -180,8 +180,10 @@ void World::exec_track_op(const Step& s)
             slot.h->update(r);
         });
         note("rewrite track " + std::to_string(slot.id) + (e.out.threw ? " -> threw " + e.out.exc : " -> ok"));
-        if (e.out.threw || s.fault.kind != FK_NONE)
+        if (e.out.threw)
             e.expect_unchanged = true;
+        else if (e.out.fault_fired)
+            ;  // a fired fault that did not surface is reported by after_step (error-swallowed)
         else
         {
             // the snapshot just read must be a fixed point of update()
